@@ -36,6 +36,7 @@ TInit ==
      /\ nsarg = ToSetOf(T.cfg.nsarg)
      /\ n = T.tree.n
      /\ par = T.tree.par /\ knd = T.tree.knd /\ txt = T.tree.txt /\ tl = T.tree.tl /\ nat = T.tree.nat
+     /\ etx = T.tree.etx /\ etl = T.tree.etl
      /\ decl = [i \in 1..T.tree.n |-> ToSetOf(T.tree.decl[i])]
      /\ pre = T.tree.pre /\ post = T.tree.post
   /\ pc = "start" /\ position = 0 /\ nodes = <<>> /\ docidx = 0 /\ rootidx = 0 /\ retidx = 0
